@@ -344,6 +344,9 @@ pub struct Case {
     pub h: Mat,
     pub llrs: Vec<Fx>,
     pub limit: usize,
+    /// further calls on the *same* decoder object (each must again equal the textbook result)
+    #[serde(default)]
+    pub more: Vec<(Vec<Fx>, usize)>,
 }
 
 /// any matrix, including checks of degree 0 and 1 and isolated variables
@@ -362,10 +365,12 @@ fn case_strategy(_t: Tier) -> BoxedStrategy<Case> {
     any_matrix()
         .prop_flat_map(|h| {
             let n = h.cols;
-            let llr = prop_oneof![4 => proptest::collection::vec(any_llr(), n), 2 => super::decgen::llr_vector(&h)];
-            (Just(h), llr, prop_oneof![1 => Just(0usize), 2 => Just(1usize), 3 => Just(2usize), 3 => Just(3usize), 3 => Just(6usize), 2 => Just(20usize), 1 => Just(60usize)])
+            let llr = || prop_oneof![4 => proptest::collection::vec(any_llr(), n), 2 => super::decgen::llr_vector(&h)];
+            let limit = || prop_oneof![1 => Just(0usize), 2 => Just(1usize), 3 => Just(2usize), 3 => Just(3usize), 3 => Just(6usize), 2 => Just(20usize), 1 => Just(60usize)];
+            let more = proptest::collection::vec((llr(), limit()), 0..=2);
+            (llr(), limit(), more, Just(h))
         })
-        .prop_map(|(h, llrs, limit)| Case { h, llrs: llrs.into_iter().map(Fx).collect(), limit })
+        .prop_map(|(llrs, limit, more, h)| Case { h, llrs: llrs.into_iter().map(Fx).collect(), limit, more: more.into_iter().map(|(l, m)| (l.into_iter().map(Fx).collect(), m)).collect() })
         .boxed()
 }
 
@@ -386,23 +391,30 @@ fn compare(which: &str, got: &Out, want: &Out, limit: usize, sign_ok: bool) -> C
 }
 
 fn check_reference(case: &Case, p: &mut Probe) -> Check {
-    let llrs = fx_vec(&case.llrs);
     let hs = case.h.to_sparse();
-    let sign_ok = case.h.syndrome_ok(&super::decgen::sign_pattern(&llrs));
+    let mut calls: Vec<(Vec<f64>, usize)> = vec![(fx_vec(&case.llrs), case.limit)];
+    calls.extend(case.more.iter().map(|(l, m)| (fx_vec(l), *m)));
     let mut max_it = 0;
+    let mut any_sign_ok = false;
     macro_rules! one {
         ($arith:expr, $name:expr) => {{
-            let mut d = flooding::Decoder::new(hs.clone(), $arith);
-            let got = guarded(|| d.decode(&llrs, case.limit)).map_err(|e| Fail::new("panic", format!("flooding/{}: panicked: {e}", $name)))?;
-            let want = ref_flooding(&mut $arith, &case.h, &llrs, case.limit);
-            compare(&format!("flooding/{}", $name), &got, &want, case.limit, sign_ok)?;
-            max_it = max_it.max(match &want { Ok(o) => o.iterations, Err(o) => o.iterations });
-            let mut d = horizontal_layered::Decoder::new(hs.clone(), $arith);
-            let got = guarded(|| d.decode(&llrs, case.limit)).map_err(|e| Fail::new("panic", format!("layered/{}: panicked: {e}", $name)))?;
-            let want = ref_layered(&mut $arith, &case.h, &llrs, case.limit);
-            compare(&format!("layered/{}", $name), &got, &want, case.limit, sign_ok)?;
-            max_it = max_it.max(match &want { Ok(o) => o.iterations, Err(o) => o.iterations });
-            p.inner += 2;
+            // one decoder object per (arithmetic, schedule), reused for the whole call history;
+            // the reference interpreter is stateless
+            let mut fl = flooding::Decoder::new(hs.clone(), $arith);
+            let mut la = horizontal_layered::Decoder::new(hs.clone(), $arith);
+            for (ci, (llrs, limit)) in calls.iter().enumerate() {
+                let sign_ok = case.h.syndrome_ok(&super::decgen::sign_pattern(llrs));
+                any_sign_ok |= sign_ok;
+                let got = guarded(|| fl.decode(llrs, *limit)).map_err(|e| Fail::new("panic", format!("flooding/{} call {ci}: panicked: {e}", $name)))?;
+                let want = ref_flooding(&mut $arith, &case.h, llrs, *limit);
+                compare(&format!("flooding/{} call {ci}", $name), &got, &want, *limit, sign_ok)?;
+                max_it = max_it.max(match &want { Ok(o) => o.iterations, Err(o) => o.iterations });
+                let got = guarded(|| la.decode(llrs, *limit)).map_err(|e| Fail::new("panic", format!("layered/{} call {ci}: panicked: {e}", $name)))?;
+                let want = ref_layered(&mut $arith, &case.h, llrs, *limit);
+                compare(&format!("layered/{} call {ci}", $name), &got, &want, *limit, sign_ok)?;
+                max_it = max_it.max(match &want { Ok(o) => o.iterations, Err(o) => o.iterations });
+                p.inner += 2;
+            }
         }};
     }
     one!(IntMinSum, "IntMinSum");
@@ -411,7 +423,8 @@ fn check_reference(case: &Case, p: &mut Probe) -> Check {
     p.class_if(max_it >= 3, "iterations>=3");
     p.class_if(max_it >= 2, "iterations>=2");
     p.class_if(case.h.row_lists().iter().any(|r| r.len() <= 1), "has-check-degree<=1");
-    p.class_if(sign_ok, "zero-iteration");
+    p.class_if(any_sign_ok, "zero-iteration");
+    p.class_if(calls.len() >= 2, "decoder-reused");
     if max_it >= 2 && deg2 {
         p.nontrivial();
     }
@@ -705,7 +718,7 @@ pub fn property() -> Property {
         subs: vec![
             Box::new(Sub {
                 name: "reference",
-                rule: "generated (H, LLR, limit): H 1..=8 x 1..=12 with arbitrary rows (degree-0 and degree-1 checks and isolated variables allowed), LLRs from the C01 catalogue, limits {0,1,2,3,6,20,60}; flooding::Decoder<A> and horizontal_layered::Decoder<A> with the checker's exact integer min-sum (wrapping i64) and free hash-term algebra (order-independent, separates routing/initialisation/staleness) against an own edge-map interpreter of the two textbook schedules: identical (verdict, word, iterations); for limit 0 on a non-codeword only verdict and count; non-trivial = >= 2 iterations executed and a variable of degree >= 2; inner = decoder runs compared",
+                rule: "generated (H, LLR, limit): H 1..=8 x 1..=12 with arbitrary rows (degree-0 and degree-1 checks and isolated variables allowed), LLRs from the C01 catalogue, limits {0,1,2,3,6,20,60}, 1..=3 calls on the same decoder object (each compared with the stateless reference); flooding::Decoder<A> and horizontal_layered::Decoder<A> with the checker's exact integer min-sum (wrapping i64) and free hash-term algebra (order-independent, separates routing/initialisation/staleness) against an own edge-map interpreter of the two textbook schedules: identical (verdict, word, iterations); for limit 0 on a non-codeword only verdict and count; non-trivial = >= 2 iterations executed and a variable of degree >= 2; inner = decoder runs compared",
                 cases: |t| t.pick(300_000, 10_000_000),
                 strategy: case_strategy,
                 check: check_reference,
